@@ -74,6 +74,10 @@ pub mod python;
 #[cfg(feature = "julia")]
 pub mod julia;
 
+#[cfg(clarabel_verif)]
+#[allow(missing_docs)]
+pub mod verif_hooks;
+
 #[allow(unused_macros)]
 macro_rules! printbuildenv {
     ($tag:expr) => {
